@@ -128,6 +128,27 @@ prop('C05',
          'everything SDD (C03): compile_* under the SDD builder and any vtree',
      ])
 
+prop('C02',
+     units=['ptr', 'bottomup', 'builder', 'robdd', 'table'],
+     assumptions=[A_VERUS, A_EXTRACT, A_PTREQ, A_CELL, A_TERM, A_CLONE,
+                  'A-bump: bumpalo::Bump::alloc returns a reference to a value equal to its argument that is never moved, freed or mutated while the arena lives',
+                  'A-psl: a probe sequence is shorter than min(255, cap) (u8 probe counter, no wrap around the whole table); assumed exactly where the counters are incremented',
+                  'A-cap: node count < usize::MAX and capacity < 2^62; usize::next_power_of_two returns a value >= its argument',
+                  'A-eq: `==` on table elements is an equivalence relation (std::cmp::Eq contract)',
+                  'A-hash (table): UniqueTable::get_or_insert hashes the element with FxHasher (external crate) and calls get_or_insert_by_hash(hash, elem, false); the hash is an arbitrary u64 in the proof, so every collision pattern is covered',
+                  'A-canon: the ROBDD canonicity theorem (ordered + reduced + complement-normalised + hash-consed => equal functions are the same node) is cited, not mechanised; reference identity itself is not expressible in Verus (a `&T` is its value) -- what is proved are the premises'],
+     replay={'table': 'table', '*': 'bdd'},
+     explanation='shape: get_or_insert / ite_helper / cond_with_alloc / condition_essential and every public operation built on them return diagrams that respect the variable order (`ordered`) and, given canonical arguments, '
+                 'are canonical (`canon`: no complemented or false high edge, children not the same pointer) -- clauses tagged #C02 plus the untagged order clauses.  hash-consing: the REAL robin-hood table code (propagate, grow, get_or_insert_by_hash) '
+                 'is proved to keep the robin-hood invariant wfl (stored probe length = true displacement; no gaps in probe chains) for every capacity, every hash sequence and any number of growths, to keep exactly the stored (pointer, hash) pairs across grow, '
+                 'and get_or_insert_by_hash is proved to return a reference that was ALREADY stored whenever a matching element is present (no second copy), otherwise to store exactly one new entry',
+     not_covered=[
+         'the "if and only if" itself (equal function <=> pointer-equal): needs reference identity and the cited canonicity theorem (A-canon)',
+         'get_by_hash (used only by the semantic-hash builders), BackedRobinhoodTable::new / iter',
+         'BddNode Hash impl consistency with PartialEq (hash is an arbitrary function in the proof; only lookup COMPLETENESS for one hash value per element is proved, so `Hash` must be a function of (var, low, high): A-hash)',
+         'apply-cache evictions: by C16/C01 the cache cannot change results',
+     ])
+
 
 def proved_includes(root):
     """set of inc/*.rs files that some unit template includes non-assumed"""
